@@ -12,7 +12,7 @@ CFG = {
     "stages": ["go:gen", "go:impl", "lean:judge"],
     "theorems": [T + n for n in ["C17_roundtrip", "C17_unsupported", "C17_guard_exact", "C17_guard_emitted",
                                  "C17_numfmt_int", "C17_injective",
-                                 "C17_tie_encode", "C17_roundtrip_src", "C17_unsupported_src",
+                                 "C17_tie_encode", "C17_roundtrip_src", "C17_unsupported_src", "C17_unsupported_error_src",
                                  "C17_roundtrip_checked", "C17_roundPos_rne", "C17_toBits_sound", "C17_rne_unique", "C17_rne_mono"]],
     "trusted_base": [
         "Lean 4.33.0 kernel; axioms of every theorem printed by #print axioms must be within {propext, Classical.choice, Quot.sound}",
